@@ -318,14 +318,6 @@ def parsePlan (h2gun : Bool) (s : String) : Option ConnPlan := do
   let dflt ← fates.getLast?
   pure { fates := fates, dflt := dflt, racy := toks.any connRacy }
 
-/-- all scenario shots of one client over a connection plan -/
-def scenarioShotsOverConns (dka : Bool) (dflt : ConnFate) (h2 : Bool) (steps : List (StepCfg × Reply)) :
-    Nat → Bool → List ConnFate → List GunShot
-  | 0, _, _ => []
-  | n + 1, isOpen, plan =>
-    let t := scenarioOverConns dka dflt h2 isOpen plan steps
-    GunShot.scenario h2 "scn" t.1 :: scenarioShotsOverConns dka dflt h2 steps n t.2.1 t.2.2
-
 def handleRun (kv : List (String × String)) (impl : String) : String × String :=
   let (res, n) := implRes impl
   let noCfg : AutoTagCfg := { enabled := false, uriElements := 2, noTagOnly := true }
@@ -402,7 +394,7 @@ def handleRun (kv : List (String × String)) (impl : String) : String × String 
       let inst := (getN? kv "inst").getD 1
       let shots : List GunShot := match plan? with
         | none => List.replicate shotsN (GunShot.scenario h2 "scn" (steps.map fun (c, r) => (c, facts, r)))
-        | some plan => scenarioShotsOverConns (getS kv "dka" == "1") plan.dflt h2 steps shotsN false plan.fates
+        | some plan => scenarioShotsOverConns (getS kv "dka" == "1") plan.dflt h2 "scn" steps shotsN false plan.fates
       let run := instanceRun (shots.map GunShot.run)
       let certain := match plan? with | none => true | some plan => inst == 1 && !plan.racy
       let fatal := match plan? with
